@@ -275,8 +275,7 @@ void process_component(const XmlElement& xf, const Components& components, const
 	else
 	{
 		for(XmlElement::XmlSet::const_iterator itr(citr->second->begin()); itr != citr->second->end(); ++itr)
-			process_elements(itr, components, depth, outf, name,
-				depth == 3 ? comp_required : comp_required && required);
+			process_elements(itr, components, depth, outf, name, comp_required && required);
 	}
 }
 
@@ -290,8 +289,9 @@ void process_group(const XmlElement& xf, const Components& components, const int
 		outf << " component=\'" << compon << '\'';
 	outf << '>' << endl;
 
+	// the required flags of a group's members are relative to one element of the group
 	for(XmlElement::XmlSet::const_iterator itr(xf.begin()); itr != xf.end(); ++itr)
-		process_elements(itr, components, depth + 1, outf, string(), required);
+		process_elements(itr, components, depth + 1, outf, string(), true);
 	outf << string(depth * 2, ' ') << "</group>" << endl;
 }
 
